@@ -31,7 +31,7 @@ META = {
                  "chunkings of small shapes; replay into dask (data and mask observed per block) + TLC validation of recorded calls",
     "level_text": "Small-scope exhaustive: for seeded data fills of every shape with <= 2 axes and <= 6 cells (thorough: plus (3,3)), ALL masks "
                   "(quick: all masks up to 4 cells, a seeded menu incl. all-masked above) x masked_array (ndarray / dask / scalar / "
-                  "nomask mask, fill_value), getdata, getmaskarray, filled, elementwise ops with masked and plain operands (mask = or, "
+                  "nomask mask, fill_value), re-wrapping a masked array with a new fill_value / a further mask, getdata, getmaskarray, filled, elementwise ops with masked and plain operands (mask = or, "
                   "domain mask of floor division), reductions skipping masked cells (sum prod min max any all mean count argmin argmax, "
                   "all axes, keepdims, split_every), cumsum/cumprod (sequential, blelloch), masked_equal/values/not_equal/greater(_equal)/"
                   "less(_equal)/inside/outside/where; dask is replayed on every chunking, block by block.",
@@ -44,7 +44,7 @@ FOLD_OPS = {"sum", "prod", "min", "max", "any", "all", "mean", "count", "argmin"
 BIN_OPS = {"add": "__add__", "sub": "__sub__", "mul": "__mul__", "floordiv": "__floordiv__", "lt": "__lt__"}
 MASK_OPS = {"masked_equal", "masked_values", "masked_not_equal", "masked_greater", "masked_greater_equal", "masked_less",
             "masked_less_equal", "masked_inside", "masked_outside", "masked_where"}
-PLAIN = {"getdata", "getmaskarray", "filled", "count", "argmin", "argmax"}
+PLAIN = {"getdata", "getmaskarray", "filled", "refill", "count", "argmin", "argmax"}
 
 
 def variants_of(case):
@@ -91,6 +91,11 @@ def apply_op(mod, ma, case, chunks, aux, variant):
         return getattr(ma, op)(a)
     if op == "filled":
         return ma.filled(a, case["p"]) if case["p"] else ma.filled(a)
+    if op in ("rewrap", "refill"):
+        b = ma.masked_array(a, fill_value=case["p"])
+        return ma.filled(b) if op == "refill" else b
+    if op == "remask":
+        return ma.masked_array(a, mask=_arr(case, "mask2", bool))
     if op == "neg":
         return -a
     if op == "mul2":
@@ -303,7 +308,7 @@ def classify(case, chunks, clause, variant):
             if m[sl].size and m[sl].all():
                 feats.append("allmasked-block")
                 break
-    if case["op"] == "id" or case["op"] == "filled":
+    if case["op"] in ("id", "filled", "rewrap", "refill"):
         feats.append("mask=" + case["maskform"])
     if case["op"] in BIN_OPS:
         feats.append("other=" + case["form2"])
@@ -393,6 +398,7 @@ def _rec(d, keys):
 
 
 INVARIANTS = ["CellCount", "Canonical", "MaskMonotone", "CountComplement", "SumOfUnmasked", "AllMaskedLane", "FilledAgrees",
+              "RewrapKeepsMask", "RefillUsesNew",
               "UnmaskedAgrees"]
 
 
@@ -411,7 +417,7 @@ def random_case(rng):
     shape = [rng.randint(1, 10)] if nd == 1 else ([rng.randint(1, 5), rng.randint(1, 4)] if nd == 2 else
                                                    [rng.randint(1, 3), rng.randint(1, 3), rng.randint(1, 3)])
     n = int(np.prod(shape))
-    op = rng.choice(["id", "getdata", "getmaskarray", "filled", "neg", "mul2", "add", "sub", "mul", "floordiv", "lt",
+    op = rng.choice(["id", "getdata", "getmaskarray", "filled", "rewrap", "refill", "refill", "remask", "neg", "mul2", "add", "sub", "mul", "floordiv", "lt",
                      "sum", "prod", "min", "max", "any", "all", "mean", "count", "argmin", "argmax", "sum", "mean", "min",
                      "cumsum", "cumprod"] + sorted(MASK_OPS))
     prodlike = op in ("prod", "cumprod")
@@ -442,6 +448,11 @@ def random_case(rng):
             case["p"] = 7
         else:
             case["fv"] = 8
+    if op in ("rewrap", "refill"):
+        case["p"] = rng.choice((5, 7))
+        case["fv"] = rng.choice((0, 8))
+    if op == "remask":
+        case["mask2"] = [rng.choice((0, 0, 1)) for _ in range(n)]
     if op in BIN_OPS:
         case.update(data2=[rng.choice((0, 1, 2, 3)) for _ in range(n)], form2=rng.choice(["masked", "plain"]))
         case["mask2"] = [rng.choice((0, 0, 1)) for _ in range(n)] if case["form2"] == "masked" else [0] * n
